@@ -4,7 +4,7 @@ import json
 ids=[json.loads(l)['id'] for l in open('properties.jsonl')]
 plan=json.load(open('harness/plan.json'))
 meta=json.load(open('manifest_meta.json'))
-claimed=[i for i in ids if i in plan and i not in meta.get('not_applicable',{})]
+claimed=[i for i in ids if i in plan and not i.startswith("_") and i not in meta.get('not_applicable',{})]
 checks=[]
 for i in claimed:
     m=meta['checks'].get(i,{})
